@@ -100,6 +100,58 @@ func checkC04(R *Run) {
 	R.rule("dispatch-only", "the handler table is read only by handleTransaction and written only by HandleFunc/NewServer; handleTransaction is called only from the post-login loop")
 
 	// ---- handshake-valid
+	var describeHS func(f Fact) string
+	// withoutID: the blocks of fn that can be reached (and, for returns, the value returned there can be true) when
+	// the given identifier test fails — the edges on which it holds are cut and the rest is followed with what the
+	// branches establish (a verdict collected in an error or bool variable is followed)
+	hsIDs := []string{"hotline.handshake.Protocol==TRTP", "hotline.handshake.SubProtocol==HOTL"}
+	reachWithoutID := func(fn *ssa.Function, id string) (map[*ssa.BasicBlock][]nilState, int) {
+		cut := map[Edge]bool{}
+		n := 0
+		factEdges(fn, func(e Edge, f Fact) {
+			if describeHS(f) == id {
+				cut[e] = true
+				n++
+			}
+			// the same test spelled with != : it holds on the other edge
+			nf := f
+			nf.Holds = !f.Holds
+			_ = nf
+		})
+		out := map[*ssa.BasicBlock][]nilState{}
+		if len(fn.Blocks) > 0 {
+			explore([]psItem{{fn.Blocks[0], nilState{}}}, cut, true, func(b *ssa.BasicBlock, st nilState) bool {
+				out[b] = append(out[b], st)
+				return true
+			})
+		}
+		return out, n
+	}
+	canBeTrue := func(st nilState, v ssa.Value) bool {
+		switch st.of(v) {
+		case 1:
+			return false
+		case 2:
+			return true
+		}
+		if b, ok := v.(*ssa.BinOp); ok && (b.Op == token.EQL || b.Op == token.NEQ) {
+			var x ssa.Value
+			if isZeroLike(b.Y) {
+				x = b.X
+			} else if isZeroLike(b.X) {
+				x = b.Y
+			}
+			if x != nil {
+				switch st.of(x) {
+				case 1:
+					return b.Op == token.EQL
+				case 2:
+					return b.Op == token.NEQ
+				}
+			}
+		}
+		return true
+	}
 	if fn := R.mustFn("(*hotline.handshake).Valid"); fn != nil {
 		R.analysed(fname(fn))
 		describe := func(f Fact) string {
@@ -129,6 +181,7 @@ func checkC04(R *Run) {
 			}
 			return ""
 		}
+		describeHS = describe
 		okAll := len(returnsOf(fn)) > 0
 		for _, ret := range returnsOf(fn) {
 			m := mustHoldWhenTrue(fn, ret.Results[0], describe, 0)
@@ -140,6 +193,24 @@ func checkC04(R *Run) {
 			}
 			if !m["hotline.handshake.Protocol==TRTP"] || !m["hotline.handshake.SubProtocol==HOTL"] {
 				okAll = false
+			}
+		}
+		if !okAll {
+			// the verdict may be collected first (an error that is nil exactly when both identifiers match): with either
+			// identifier wrong, no return can yield true
+			okAll = len(returnsOf(fn)) > 0
+			for _, id := range hsIDs {
+				reach, n := reachWithoutID(fn, id)
+				if n == 0 {
+					okAll = false
+				}
+				for _, ret := range returnsOf(fn) {
+					for _, st := range reach[ret.Block()] {
+						if canBeTrue(st, ret.Results[0]) {
+							okAll = false
+						}
+					}
+				}
 			}
 		}
 		R.check(okAll, "handshake-valid", fname(fn), P.pos(fn.Pos()), "true implies Protocol==TRTP ∧ SubProtocol==HOTL", "Valid() can return true without both Protocol == \"TRTP\" and SubProtocol == \"HOTL\"")
@@ -159,6 +230,22 @@ func checkC04(R *Run) {
 			}
 		})
 		reach := reachable(fn, cut)
+		if nValid == 0 && describeHS != nil {
+			// the test Valid consists of, written out (or reached through an error-returning twin of Valid): what can
+			// be reached with either identifier wrong
+			reach = map[*ssa.BasicBlock]bool{}
+			for _, id := range hsIDs {
+				r, n := reachWithoutID(fn, id)
+				if n > 0 {
+					nValid++
+				} else {
+					nValid = -100
+				}
+				for b := range r {
+					reach[b] = true
+				}
+			}
+		}
 		nWrites := 0
 		for _, ci := range callsIn(fn) {
 			c := ci.Common()
